@@ -49,6 +49,10 @@ def func_key(fi) -> str:
     return k
 
 
+def is_stub(fi) -> bool:
+    return any(U(d).split(".")[-1] == "overload" for d in fi.node.decorator_list)
+
+
 def canon(e: ast.AST) -> str:
     """Canonical text of a condition (see module docstring)."""
     if isinstance(e, ast.BoolOp):
@@ -88,37 +92,37 @@ def defaults_of(fi) -> Dict[str, str]:
 
 
 def refusals_of(fi) -> List[dict]:
-    """One entry per Raise statement of the function (nested functions excluded)."""
+    """One entry per Raise statement of the function (nested functions excluded): the exception type and the chain of
+    enclosing guards (outermost first), each as (canonical condition, decision)."""
     out = []
 
-    def walk(stmts, guard, in_handler):
+    def walk(stmts, chain, in_handler):
         for st in stmts:
             if isinstance(st, (ast.FunctionDef, ast.AsyncFunctionDef, ast.ClassDef)):
                 continue
             if isinstance(st, ast.Raise):
                 if in_handler is not None:
-                    out.append(dict(kind="handler", exc=exc_name(st), handler=in_handler))
-                elif guard is None:
-                    out.append(dict(kind="plain", exc=exc_name(st)))
+                    out.append(dict(kind="handler", exc=exc_name(st), handler=in_handler, chain=[list(c) for c in chain]))
+                elif not chain:
+                    out.append(dict(kind="plain", exc=exc_name(st), chain=[]))
                 else:
-                    out.append(dict(kind="guard", exc=exc_name(st), guard=guard[0], decision=guard[1]))
+                    out.append(dict(kind="guard", exc=exc_name(st), chain=[list(c) for c in chain]))
             elif isinstance(st, ast.If):
                 t, dec = st.test, True
                 while isinstance(t, ast.UnaryOp) and isinstance(t.op, ast.Not):
                     t, dec = t.operand, not dec
-                walk(st.body, (canon(t), dec), in_handler)
-                walk(st.orelse, (canon(t), not dec), in_handler)
+                walk(st.body, chain + [(canon(t), dec)], in_handler)
+                walk(st.orelse, chain + [(canon(t), not dec)], in_handler)
             elif isinstance(st, (ast.For, ast.While, ast.With)):
-                walk(st.body, guard, in_handler)
-                walk(getattr(st, "orelse", []), guard, in_handler)
+                walk(st.body, chain, in_handler)
+                walk(getattr(st, "orelse", []), chain, in_handler)
             elif isinstance(st, ast.Try):
-                walk(st.body, guard, in_handler)
+                walk(st.body, chain, in_handler)
                 for h in st.handlers:
-                    walk(h.body, guard, U(h.type) if h.type is not None else "<bare>")
-                walk(st.orelse, guard, in_handler)
-                walk(st.finalbody, guard, in_handler)
-    walk(fi.node.body, None, None)
-    # de-duplicate identical entries (same guard raising twice)
+                    walk(h.body, chain, U(h.type) if h.type is not None else "<bare>")
+                walk(st.orelse, chain, in_handler)
+                walk(st.finalbody, chain, in_handler)
+    walk(fi.node.body, [], None)
     seen, uniq = set(), []
     for r in out:
         k = json.dumps(r, sort_keys=True)
@@ -128,67 +132,21 @@ def refusals_of(fi) -> List[dict]:
     return uniq
 
 
-def _ifs(fi):
-    out = []
-
-    def walk(stmts):
-        for st in stmts:
-            if isinstance(st, (ast.FunctionDef, ast.AsyncFunctionDef, ast.ClassDef)):
-                continue
-            if isinstance(st, ast.If):
-                out.append(st)
-            for f in ("body", "orelse", "finalbody"):
-                walk(getattr(st, f, []) or [])
-            for h in getattr(st, "handlers", []) or []:
-                walk(h.body)
-    walk(fi.node.body)
-    return out
-
-
-def _must_raise(stmts) -> bool:
-    """Every way through the statement list ends in a raise."""
-    for st in stmts:
-        if isinstance(st, ast.Raise):
-            return True
-        if isinstance(st, ast.If) and st.orelse and _must_raise(st.body) and _must_raise(st.orelse):
-            return True
-        if isinstance(st, ast.With) and _must_raise(st.body):
-            return True
-        if isinstance(st, (ast.Return, ast.Continue, ast.Break)):
-            return False
-    return False
-
-
-def _raises_in(stmts):
-    return [n for st in stmts for n in ast.walk(st) if isinstance(n, ast.Raise)]
-
-
-def check_refusal(fi, entry) -> str:
+def check_refusal(fi, entry, now=None) -> str:
     """'' when the refusal still holds, otherwise what happened to it."""
-    if entry["kind"] in ("plain", "handler"):
-        now = refusals_of(fi)
-        if any(r["kind"] == entry["kind"] and r["exc"] == entry["exc"] and r.get("handler") == entry.get("handler") for r in now):
-            return ""
-        return f"the {'handler ' + entry['handler'] if entry['kind'] == 'handler' else 'unconditional'} `raise {entry['exc']}` is gone"
-    seen = False
-    for node in _ifs(fi):
-        t, dec = node.test, True
-        while isinstance(t, ast.UnaryOp) and isinstance(t.op, ast.Not):
-            t, dec = t.operand, not dec
-        if canon(t) != entry["guard"]:
-            continue
-        seen = True
-        branch = node.body if dec == entry["decision"] else node.orelse
-        if branch and any(exc_name(r) == entry["exc"] for r in _raises_in(branch)):
-            # the branch still leads to the refusal: directly, or through nested guards that were recorded on their own
-            direct = [st for st in branch if isinstance(st, ast.Raise)]
-            if direct or any(isinstance(st, (ast.If, ast.With, ast.For, ast.Try)) for st in branch):
-                if not direct or _must_raise(branch):
-                    return ""
-    if not seen:
-        return f"no guard `{entry['guard']}` any more (refusal with {entry['exc']} removed or its condition changed)"
-    return (f"when `{entry['guard']}` is {entry['decision']} the function no longer raises {entry['exc']} "
-            "(the raise was removed, moved to the other branch, or statements now run on after it)")
+    now = refusals_of(fi) if now is None else now
+    if entry in now:
+        return ""
+    chain = entry.get("chain", [])
+    desc = " and ".join(f"`{g}` is {d}" for g, d in chain) or "unconditionally"
+    same_guard = [r for r in now if r["kind"] == entry["kind"] and r["chain"][-1:] == chain[-1:]]
+    if entry["kind"] == "handler":
+        return f"the `raise {entry['exc']}` in the handler of {entry.get('handler')} is gone or moved"
+    if same_guard and any(r["exc"] == entry["exc"] for r in same_guard):
+        return f"the refusal with {entry['exc']} is no longer reached under the same outer conditions ({desc})"
+    if same_guard:
+        return f"when {desc} the function now raises {same_guard[0]['exc']} instead of {entry['exc']}"
+    return f"when {desc} the function no longer raises {entry['exc']} (raise removed, or its condition / polarity changed)"
 
 
 def load():
@@ -205,6 +163,8 @@ def check(ctx, prop: str, rule: str, floor: int = 1):
         raise AnalysisError("sa/contract.json is missing")
     byk = {}
     for fi in ctx.model.all_funcs():
+        if is_stub(fi):
+            continue
         byk.setdefault(func_key(fi), fi)
     n = 0
     for key, ent in sorted(tab["functions"].items()):
@@ -222,8 +182,9 @@ def check(ctx, prop: str, rule: str, floor: int = 1):
                 probs.append(f"default of `{p}` is now {now[p]} (was {d})")
             elif p not in now and p in [a.arg for a in fi.node.args.posonlyargs + fi.node.args.args + fi.node.args.kwonlyargs]:
                 probs.append(f"`{p}` lost its default {d}")
+        cur = refusals_of(fi)
         for r in ent.get("refusals", []):
-            msg = check_refusal(fi, r)
+            msg = check_refusal(fi, r, cur)
             if msg:
                 probs.append(msg)
         n += 1
